@@ -698,16 +698,37 @@ func (c *Canonicalizer) renamerFunc() loop.Renamer {
 	// The same value is reached through every leaf of a shared expression (d := i+i; d = d+d; ...):
 	// render it once per top-level operand. Only complete renderings are remembered (one that hit
 	// the depth limit or a cycle depends on where it was reached from).
-	memo := make(map[ssa.Value]string)
+	// A remembered rendering is only reused where rendering afresh would give the same text: it
+	// needed `height` further levels of recursion when it was made at level `level`; one that ran
+	// into the depth limit (possibly hidden inside a digest) is specific to its level, a complete
+	// one fits wherever its height still stays below the limit. Without this the text of a deep
+	// chain depended on which operand happened to be rendered first (i20+i0 vs i0+i20).
+	type remembered struct {
+		text          string
+		level, height int
+	}
+	memo := make(map[ssa.Value]remembered)
+	reach := 0 // deepest level entered by the rendering in progress
 
 	var renamer loop.Renamer
 	renamer = func(v ssa.Value) (out string) {
-		if s, ok := memo[v]; ok {
-			return s
+		level := depth
+		if m, ok := memo[v]; ok {
+			if m.level == level || (m.level+m.height < MaxRenamerDepth && level+m.height < MaxRenamerDepth) {
+				if level+m.height > reach {
+					reach = level + m.height
+				}
+				return m.text
+			}
 		}
+		outerReach := reach
+		reach = level
 		defer func() {
 			if !strings.Contains(out, "<depth-limit>") && !strings.Contains(out, "<cycle>") {
-				memo[v] = out
+				memo[v] = remembered{out, level, reach - level}
+			}
+			if outerReach > reach {
+				reach = outerReach
 			}
 		}()
 		verifCountRenamer()
